@@ -89,6 +89,10 @@ class Prop(core.Prop):
                 for form in ('interpDimension', 'interpvars'):
                     yield {'part': 'apply', 'src': group['src'], 'tgt': tgt, 'form': form}
                     yield {'part': 'apply', 'src': group['src'], 'tgt': tgt, 'form': form, 'cint': True}
+            # large-magnitude coordinates (seconds since 1970, Pa): as many targets as sources, each shifted by a
+            # quarter of a step - a relative change far below 1e-5
+            for form in ('interpDimension', 'interpvars'):
+                yield {'part': 'apply', 'src': group['src'], 'tgt': list(group['src']), 'form': form, 'big': True}
         else:
             for to in sigma_grids():
                 yield {'part': 'sigma', 'from': group['from'], 'to': to}
@@ -151,11 +155,15 @@ class Prop(core.Prop):
         from PseudoNetCDF.coordutil import getinterpweights
         src, tgt, form = case['src'], case['tgt'], case['form']
         n = len(src)
-        st = [h64('a', src), h64('a', src, tgt, form, case.get('cint'))]
+        st = [h64('a', src), h64('a', src, tgt, form, case.get('cint'), case.get('big'))]
         vs = []
-        scope = dict(form=form, nsrc=n, ntgt=len(tgt), square=bool(n == len(tgt)), cint=bool(case.get('cint')))
+        scope = dict(form=form, nsrc=n, ntgt=len(tgt), square=bool(n == len(tgt)), cint=bool(case.get('cint')),
+                     big=bool(case.get('big')))
         sig = (form,)
         xs, nxs = np.array(src, 'd'), np.array(tgt, 'd')
+        if case.get('big'):
+            xs = 1.0e9 + 3600. * xs
+            nxs = xs + 900.
         for dname in ('t', 'z', 'x'):
             f = P.PseudoNetCDFFile()
             lens = {'t': 2, 'z': 3, 'x': 2}
@@ -193,21 +201,39 @@ class Prop(core.Prop):
             if wf:
                 vs.append(viol('not-wellformed', sig + (dname,), '; '.join(wf), dim=dname, **scope))
                 continue
+            # the source file is left as it was, and asking again gives the same answer
+            swf = lib.wellformed(f)
+            if swf or len(f.dimensions[dname]) != n:
+                vs.append(viol('source-modified', sig + (dname,), 'after the call the source has %s=%d (%s)'
+                               % (dname, len(f.dimensions[dname]), '; '.join(swf)), dim=dname, **scope))
+                continue
+            try:
+                if form == 'interpDimension':
+                    g2 = f.interpDimension(dname, nxs)
+                else:
+                    g2 = interpvars(f, getinterpweights(xs, nxs).T, dname)
+                if not np.array_equal(np.asarray(g2.variables['A'][...]), np.asarray(g.variables['A'][...])):
+                    vs.append(viol('second-call-differs', sig + (dname,), 'a second identical call gives other values',
+                                   dim=dname, **scope))
+            except Exception as e:
+                vs.append(viol('second-call-differs', sig + (dname,), 'a second identical call raised %s: %r'
+                               % (type(e).__name__, e), dim=dname, **scope))
             got = np.asarray(g.variables['A'][...], 'd')
             # expected: evaluate the same linear-in-coordinate field at the (clipped) targets
             cx = np.clip(nxs, xs.min(), xs.max())
+            tol = 1e-10 if not case.get('big') else 1e-7     # (1e9-sized coordinates: cancellation in the weights)
             shp2 = [1, 1, 1]
             shp2[ax] = len(tgt)
             slope = np.take(rng % 3 + 1., [0], axis=ax)
             icpt = np.take(rng % 5, [0], axis=ax)
             # rng%3 and rng%5 vary along ax in general: build expectation lane by lane instead
             want = np.apply_along_axis(lambda lane: np.interp(cx, xs, lane), ax, lin)
-            if got.shape != want.shape or relerr(got, want) > 1e-10:
+            if got.shape != want.shape or relerr(got, want) > tol:
                 vs.append(viol('interpolated-values', sig + (dname,), 'dim %s src %s tgt %s: %s expected %s'
                                % (dname, src, tgt, rfile._short(got), rfile._short(want)), dim=dname, **scope))
             gak = np.asarray(g.variables['AK'][...], 'd')
             wak = 1. + 2. * cx[:, None] + 3. * cx[None, :]
-            if gak.shape != wak.shape or relerr(gak, wak) > 1e-10:
+            if gak.shape != wak.shape or relerr(gak, wak) > (1e-10 if not case.get('big') else 1e-6):
                 vs.append(viol('interpolated-values', sig + (dname, 'repeated-dimension'),
                                'AK(%s,%s) src %s tgt %s: %s expected %s' % (dname, dname, src, tgt,
                                                                            rfile._short(gak), rfile._short(wak)),
@@ -220,7 +246,7 @@ class Prop(core.Prop):
         if form == 'interpDimension':
             vs.extend(self.nd_branch(xs, nxs, scope))
         return result('viol' if vs else 'ok-apply', vs, st, 3,
-                      h64('a', src, tgt, form, case.get('cint')) if list(src) != list(tgt) else None,
+                      h64('a', src, tgt, form, case.get('cint'), case.get('big')) if (list(src) != list(tgt) or case.get('big')) else None,
                       h64('ok') if not vs else None)
 
     def nd_branch(self, xs, nxs, scope):
